@@ -365,11 +365,13 @@ def ir_to_llvm_boolean_to_integer(
 def ir_to_llvm_array_allocate(
     self: ArrayAllocate, builder: llvm.IRBuilder, locals: dict[str, llvm.Value]
 ) -> llvm.Value:
+    # Compute the byte size in the size type, like `sizeof(T) * n` in C; multiplying in 32 bits
+    # wraps around once the array reaches 4 GiB (2**29 doubles)
     element_size = llvm.Constant(
-        llvm_integer_type, type_to_llvm(self.element_type).get_abi_size(target_machine.target_data)
+        llvm_size_type, type_to_llvm(self.element_type).get_abi_size(target_machine.target_data)
     )
     n_elements = ir_to_llvm_expression(self.n_elements, builder, locals)
-    memory_size = builder.zext(builder.mul(element_size, n_elements), llvm_size_type)
+    memory_size = builder.mul(element_size, builder.sext(n_elements, llvm_size_type))
     memory_pointer = builder.call(locals["malloc"], [memory_size])
     array_pointer = builder.bitcast(memory_pointer, type_to_llvm(self.element_type).as_pointer())
     return array_pointer
@@ -382,10 +384,10 @@ def ir_to_llvm_array_reallocate(
     old_array_pointer = ir_to_llvm_expression(self.old, builder, locals)
     old_memory_pointer = builder.bitcast(old_array_pointer, llvm.IntType(8).as_pointer())
     element_size = llvm.Constant(
-        llvm_integer_type, type_to_llvm(self.element_type).get_abi_size(target_machine.target_data)
+        llvm_size_type, type_to_llvm(self.element_type).get_abi_size(target_machine.target_data)
     )
     n_elements = ir_to_llvm_expression(self.n_elements, builder, locals)
-    memory_size = builder.zext(builder.mul(element_size, n_elements), llvm_size_type)
+    memory_size = builder.mul(element_size, builder.sext(n_elements, llvm_size_type))
     memory_pointer = builder.call(locals["realloc"], [old_memory_pointer, memory_size])
     array_pointer = builder.bitcast(memory_pointer, type_to_llvm(self.element_type).as_pointer())
     return array_pointer
